@@ -631,6 +631,11 @@ func (ab *rulesPair) genUniqRuleNames() {
 	for _, ru := range ab.a.rules {
 		aNames[ru.Name] = true
 	}
+	// New name must not clash with name of other rule in b.
+	bNames := make(map[string]bool)
+	for _, ru := range ab.b.rules {
+		bNames[ru.Name] = true
+	}
 	for _, ru := range ab.b.rules {
 		name := ru.Name
 		if !aNames[name] {
@@ -638,8 +643,9 @@ func (ab *rulesPair) genUniqRuleNames() {
 		}
 		for i := 1; ; i++ {
 			new := fmt.Sprintf("%s-%d", name, i)
-			if !aNames[new] {
+			if !aNames[new] && !bNames[new] {
 				ru.Name = new
+				bNames[new] = true
 				break
 			}
 		}
@@ -649,6 +655,11 @@ func (ab *rulesPair) genUniqRuleNames() {
 // Rename groups in b such that names are unique in respect to groups in a.
 func (ab *rulesPair) genUniqGroupNames() {
 	aGroups := ab.a.groups
+	// New name must not clash with name of other group in b.
+	bNames := make(map[string]bool)
+	for _, g := range ab.b.vsys.AddressGroups {
+		bNames[g.Name] = true
+	}
 	for _, g := range ab.b.vsys.AddressGroups {
 		name := g.Name
 		if aGroups[name] == nil {
@@ -656,8 +667,9 @@ func (ab *rulesPair) genUniqGroupNames() {
 		}
 		for i := 1; ; i++ {
 			new := fmt.Sprintf("%s-%d", name, i)
-			if aGroups[new] == nil {
+			if aGroups[new] == nil && !bNames[new] {
 				g.Name = new
+				bNames[new] = true
 				break
 			}
 		}
